@@ -194,6 +194,9 @@ def body_matches(bodies, line, w, pad, guides, word_wrap, no_crop):
         if len(line) > w and bodies[0].rstrip(" ") == line.rstrip(" "):
             return None  # Text.rstrip_end compares characters with cells: only trailing blanks can go
         return "a line that fits is not shown exactly (followed by padding only)"
+    if word_wrap == "either":  # word_wrap=True under options.no_wrap=True: rich crops or folds depending on how the line Text was made
+        a = body_matches(bodies, line, w, pad, False, False, no_crop)
+        return None if a is None else body_matches(bodies, line, w, pad, False, True, no_crop)
     if not word_wrap:
         if len(bodies) != 1:
             return "a cropped line is shown on %d rows" % len(bodies)
@@ -209,21 +212,24 @@ def body_matches(bodies, line, w, pad, guides, word_wrap, no_crop):
     # folded by word wrap: nothing but blanks may be lost, order kept
     got = "".join("".join(b.split()) for b in bodies)
     want = "".join(line.split())
+    if guides:
+        got = got.lstrip(GUIDE)  # guides folded onto continuation rows; sources never start a line with the guide character
     return None if got == want else "word wrap lost or changed non-blank characters"
 
 
 ROW_RE = re.compile(r"^(❱ |> |  )( *)(\d+) (.*)$", re.S)
+ROW_RE_STRIPPED = re.compile(r"^(❱ |> |  )( *)(\d+)(?: (.*))?$", re.S)  # rows read back from a panel lose trailing blanks
 
 
-def parse_numbered(rows, gutter_len=None):
+def parse_numbered(rows, gutter_len=None, row_re=None):
     """rows -> list of [num, marked, [bodies...]], gutter widths seen; continuation rows have a blank gutter."""
     out = []
     widths = set()
     for r in rows:
-        m = ROW_RE.match(r)
+        m = (row_re or ROW_RE).match(r)
         if m and (gutter_len is None or len(m.group(1) + m.group(2) + m.group(3)) + 1 == gutter_len or not out):
             widths.add(len(m.group(1) + m.group(2) + m.group(3)) + 1)
-            out.append([int(m.group(3)), m.group(1) != "  ", [m.group(4)]])
+            out.append([int(m.group(3)), m.group(1) != "  ", [m.group(4) or ""]])
             if gutter_len is None:
                 gutter_len = len(m.group(1) + m.group(2) + m.group(3)) + 1
         elif out and r[:gutter_len].strip(" ") == "":
@@ -259,7 +265,7 @@ def eval_numbered(rows, P, c, w):
     for (num, marked, bodies), (wnum, wline) in zip(parsed, want):
         if num != wnum:
             return "row shows number %d where line %d is due" % (num, wnum)
-        why = body_matches(bodies, wline, w, c.pad, guides, c.word_wrap, no_crop)
+        why = body_matches(bodies, wline, w, c.pad, guides, ("either" if c.no_wrap else True) if c.word_wrap else False, no_crop)
         if why:
             return "under number %d: %s (shown %r, source line %r)" % (num, why, bodies, wline)
         if marked != (num in c.highlight):
@@ -272,10 +278,17 @@ def eval_numbered(rows, P, c, w):
 
 def eval_plain(rows, P, c, w):
     """Without line numbers: the rows are the source lines in order from the first (a range only cuts the end)."""
+    if c.word_wrap and any(cell_len(l) > w or len(l) > w for l in P):
+        # folded lines: rows and lines are no longer one to one; nothing but blanks may be lost, order kept
+        got = "".join("".join(r.split()) for r in rows)
+        streams = ["".join("".join(l.split()) for l in P[:k]) for k in range(len(P) + 1)]
+        if got not in (streams if c.line_range else streams[-1:]):
+            return "word wrap lost or changed non-blank characters (shown %r)" % (rows,)
+        return None
     if len(rows) > len(P):
         return "%d rows shown, the source has only %d lines" % (len(rows), len(P))
     for r, l in zip(rows, P):
-        why = body_matches([r], l, w, c.pad, False, False, False) if not c.word_wrap or (cell_len(l) <= w and len(l) <= w) else None
+        why = body_matches([r], l, w, c.pad, False, False, False)
         if why:
             return "%s (shown %r, source line %r)" % (why, r, l)
     missing = P[len(rows):]
@@ -303,13 +316,19 @@ def evaluate(ctx, c, res, toks):
     if w < 1:
         ctx.note("direct:skipped-code-width<1")
         return
+    if c.line_range is not None and c.line_range[1] < 0:
+        ctx.note("direct:skipped-negative-range-end")  # Python slice semantics, outside the statement
+        return
+    if c.word_wrap and w < 2:
+        ctx.note("direct:skipped-word-wrap-width<2")  # a wide character cannot be folded into one cell (C02 starts at width 2)
+        return
     P = source_lines(c.code, c.tab_size)
     found = toks is not None
 
     def stripped_variant():
         # what the statement would say about the same source without its leading / trailing newlines
-        core = c.code.strip("\n")
-        return source_lines(core, c.tab_size)
+        core = c.code.expandtabs(c.tab_size).replace("\r\n", "\n").replace("\r", "\n").strip("\n")
+        return core.split("\n")
 
     if res[0] == "err":
         finding = None
@@ -325,7 +344,7 @@ def evaluate(ctx, c, res, toks):
     rows = res[1]
     why = eval_numbered(rows, P, c, w) if c.line_numbers else eval_plain(rows, P, c, w)
     finding = None
-    if why and found and c.code.replace("\r\n", "\n").replace("\r", "\n").startswith("\n"):
+    if why and found and c.code.expandtabs(c.tab_size).replace("\r\n", "\n").replace("\r", "\n").startswith("\n"):
         P2 = stripped_variant()
         why2 = eval_numbered(rows, P2, c, w) if c.line_numbers else eval_plain(rows, P2, c, w)
         if why2 is None:
@@ -700,7 +719,7 @@ def eval_traceback(out, frames, extra, ww, ig, src, path):
         P = [l.rstrip("\n").expandtabs(4) for l in lines]
         c = Case(code="".join(lines), line_numbers=True, start_line=1, line_range=(lineno - extra, lineno + extra), highlight=(lineno,),
                  code_width=88, tab_size=4, word_wrap=ww, indent_guides=ig, theme="ansi_dark")
-        parsed, _w = parse_numbered(srows)
+        parsed, _w = parse_numbered(srows, row_re=ROW_RE_STRIPPED)
         marked = [p for p in (parsed or []) if p[1]]
         why = None
         if parsed is None:
